@@ -212,4 +212,21 @@ theorem gl_runPlainPlan (l : Level) (a : Ct) (p : RnsPoly) :
     | error e => rfl
     | ok r => rfl
 
+/-- `Evaluator::multiply_plain_normal` (route + bookkeeping skeleton) = `multiplyPlainNormalPlan`: which data steps run for a monomial /
+    general plaintext with / without the fast plain lift, and the CKKS scale rule after the data at BOTH exits (verdict about the PRODUCT
+    scale; the verdict about the own scale is not consulted).  `n * k < 2^64`: the temporary RNS polynomial is allocated with a checked product. -/
+theorem gl_multiply_plain_normal_plan_eq (nonzero : Nat) (monoUpper fastLift : Bool) (n k : Nat) (s : Scheme) (okOwn okProd : Bool)
+    (hnk : n * k < 2^64) :
+    GenC.ct_multiply_plain_normal_plan nonzero monoUpper fastLift n k s okOwn okProd = multiplyPlainNormalPlan nonzero monoUpper fastLift s okProd := by
+  have hadd : ckAdd 0 1 = .ok 1 := by unfold ckAdd; rw [if_pos (by simp [B64])]
+  have h100 : ckAdd 100 0 = .ok 100 := by unfold ckAdd; rw [if_pos (by simp [B64])]
+  have h101 : ckAdd 100 1 = .ok 101 := by unfold ckAdd; rw [if_pos (by simp [B64])]
+  have hm : ckMul n k = .ok (n * k) := by unfold ckMul; rw [if_pos (by simpa [B64] using hnk)]
+  unfold GenC.ct_multiply_plain_normal_plan multiplyPlainNormalPlan multiplyPlainNormalRoute mulPlainScaleRule
+  by_cases h1 : nonzero = 1
+  · cases monoUpper <;> cases fastLift <;> cases s <;> cases okProd <;>
+      simp [h1, hadd, h100, h101, bind, Except.bind, pure, Except.pure]
+  · cases fastLift <;> cases s <;> cases okProd <;>
+      simp [h1, hadd, h100, h101, hm, bind, Except.bind, pure, Except.pure]
+
 end HC
